@@ -7,7 +7,8 @@
 //	special kinds      ContractUpgradeTx (secp256k1 multi-signature) and MultiSignAccountTx (validator signatures)
 //	cache derivations  Sign / WithSignature on objects whose sender or hash cache is warm
 //	confidential side  3 wallets x 3 sub-addresses: recognition/decoding matrix, spends with all 27 key sets,
-//	                   single mutations of every field under the ring-signature message
+//	                   single mutations of every field under the ring-signature message,
+//	                   structural mutations of the signature containers / input list of honest and foreign-input spends
 package main
 
 import (
